@@ -9,6 +9,7 @@ import (
 	"fmt"
 	"io"
 	"os"
+	"path/filepath"
 	"sync"
 	"time"
 
@@ -190,6 +191,7 @@ type Cluster struct {
 	LastLeader string
 	// DropAppends, when set, makes the transport refuse new replicate streams to that node
 	partitioned map[string]bool
+	pipes       map[string][]context.CancelFunc // active streams towards a node
 }
 
 func New() (*Cluster, error) {
@@ -197,7 +199,7 @@ func New() (*Cluster, error) {
 	if err != nil {
 		return nil, err
 	}
-	return &Cluster{dir: dir, partitioned: map[string]bool{}}, nil
+	return &Cluster{dir: dir, partitioned: map[string]bool{}, pipes: map[string][]context.CancelFunc{}}, nil
 }
 
 func (c *Cluster) Close() {
@@ -268,10 +270,15 @@ func (t transport) GetReplicateStream(ctx context.Context, follower string, _ st
 		return nil, errors.New("follower unreachable")
 	}
 	pctx, cancel := context.WithCancel(ctx)
+	t.c.mu.Lock()
+	t.c.pipes[follower] = append(t.c.pipes[follower], cancel)
+	t.c.mu.Unlock()
 	p := &replPipe{ctx: pctx, cancel: cancel, appends: make(chan *proto.Append, 64), acks: make(chan *proto.Ack, 64)}
 	go func() {
 		// the follower's Replicate returns when the stream ends (or is refused)
-		_ = fc.Replicate(&replServer{baseStream{pctx}, p})
+		if err := fc.Replicate(&replServer{baseStream{pctx}, p}); err != nil && os.Getenv("OXV_CLUSTER_TRACE") != "" {
+			fmt.Fprintf(os.Stderr, "TRACE replicate stream to %s ended: %v\n", follower, err)
+		}
 		cancel()
 	}()
 	return &replClient{baseStream{pctx}, p}, nil
@@ -287,6 +294,9 @@ func (t transport) SendSnapshot(ctx context.Context, follower string, _ string, 
 		return nil, errors.New("follower unreachable")
 	}
 	pctx, cancel := context.WithCancel(ctx)
+	t.c.mu.Lock()
+	t.c.pipes[follower] = append(t.c.pipes[follower], cancel)
+	t.c.mu.Unlock()
 	p := &snapPipe{ctx: pctx, cancel: cancel, chunks: make(chan *proto.SnapshotChunk, 4), done: make(chan struct{}), resp: make(chan *proto.SnapshotResponse, 1)}
 	go func() {
 		if err := fc.SendSnapshot(&snapServer{baseStream{pctx}, p}); err != nil {
@@ -305,6 +315,26 @@ func (t transport) Truncate(follower string, req *proto.TruncateRequest) (*proto
 		return nil, errors.New("follower unreachable")
 	}
 	return fc.Truncate(req)
+}
+
+// disconnect drops every stream towards a node and keeps new ones away until reconnect: a controller
+// is only ever closed after its connections are gone (closing a follower controller under an active
+// replication stream makes the stream goroutines hit the niled WAL: observation D-38)
+func (c *Cluster) disconnect(name string) {
+	c.mu.Lock()
+	c.partitioned[name] = true
+	for _, cancel := range c.pipes[name] {
+		cancel()
+	}
+	c.pipes[name] = nil
+	c.mu.Unlock()
+	time.Sleep(5 * time.Millisecond)
+}
+
+func (c *Cluster) reconnect(name string) {
+	c.mu.Lock()
+	delete(c.partitioned, name)
+	c.mu.Unlock()
 }
 
 // NewTerm fences one node in the cluster's current term and returns its head.
@@ -359,6 +389,8 @@ func (c *Cluster) Elect(leader string, members []string) error {
 		}
 		var err error
 		if m == leader && n.Leader == nil {
+			c.disconnect(m)
+			c.reconnect(m)
 			c.mu.Lock()
 			f := n.Follower
 			n.Follower = nil
@@ -388,7 +420,28 @@ func (c *Cluster) Elect(leader string, members []string) error {
 	}
 	_, err := c.node(leader).Leader.BecomeLeader(context.Background(), &proto.BecomeLeaderRequest{Namespace: constant.DefaultNamespace, Shard: Shard, Term: c.Term,
 		ReplicationFactor: c.RF, FollowerMaps: fm})
-	return err
+	if err != nil {
+		return err
+	}
+	for m, h := range fm {
+		c.settleSnapshot(leader, m, h)
+	}
+	return nil
+}
+
+// settleSnapshot waits until a follower that reported an empty log has installed the snapshot the leader
+// sends it (a restart in the middle of a snapshot transfer is a scenario of its own: finding D-39).
+func (c *Cluster) settleSnapshot(leader, follower string, head *proto.EntryId) {
+	if head.Offset >= 0 || c.node(leader).CommitOffset() < 0 {
+		return
+	}
+	deadline := time.Now().Add(10 * time.Second)
+	for time.Now().Before(deadline) {
+		if c.node(follower).CommitOffset() >= 0 {
+			return
+		}
+		time.Sleep(2 * time.Millisecond)
+	}
 }
 
 // Join fences a node that is not part of the current term's follower set and hands it to the leader.
@@ -398,6 +451,9 @@ func (c *Cluster) Join(leader, follower string) error {
 		return err
 	}
 	_, err = c.node(leader).Leader.AddFollower(&proto.AddFollowerRequest{Namespace: constant.DefaultNamespace, Shard: Shard, Term: c.Term, FollowerName: follower, FollowerHeadEntryId: h})
+	if err == nil {
+		c.settleSnapshot(leader, follower, h)
+	}
 	return err
 }
 
@@ -407,6 +463,8 @@ func (c *Cluster) RestartFollower(name string) error {
 	if n.Follower == nil {
 		return errors.New("not a follower")
 	}
+	c.disconnect(name)
+	defer c.reconnect(name)
 	c.mu.Lock()
 	f := n.Follower
 	n.Follower = nil
@@ -422,6 +480,69 @@ func (c *Cluster) RestartFollower(name string) error {
 	n.Follower = nf
 	c.mu.Unlock()
 	return nil
+}
+
+// Crash simulates a process crash of a node: the database directory is put back to what is on disk
+// right now (Pebble runs without its own WAL, so the unflushed memtable - everything applied since the
+// last flush - is lost), the shard's WAL is kept, and the node comes back as a follower.
+// It reports whether the node was the leader.
+func (c *Cluster) Crash(name string) (bool, error) {
+	n := c.node(name)
+	dbDir := n.dir + "/db"
+	saved := n.dir + "/db.crash"
+	_ = os.RemoveAll(saved)
+	if err := copyDir(dbDir, saved); err != nil {
+		return false, err
+	}
+	wasLeader := n.Leader != nil
+	c.disconnect(name)
+	defer c.reconnect(name)
+	c.mu.Lock()
+	f, l := n.Follower, n.Leader
+	n.Follower, n.Leader = nil, nil
+	c.mu.Unlock()
+	time.Sleep(2 * time.Millisecond)
+	if f != nil {
+		_ = f.Close()
+	}
+	if l != nil {
+		_ = l.Close()
+	}
+	if err := os.RemoveAll(dbDir); err != nil {
+		return wasLeader, err
+	}
+	if err := os.Rename(saved, dbDir); err != nil {
+		return wasLeader, err
+	}
+	nf, err := server.NewFollowerController(nodeConfig, constant.DefaultNamespace, Shard, n.walf, n.kvf)
+	if err != nil {
+		return wasLeader, err
+	}
+	c.mu.Lock()
+	n.Follower = nf
+	c.mu.Unlock()
+	return wasLeader, nil
+}
+
+func copyDir(src, dst string) error {
+	return filepath.Walk(src, func(p string, info os.FileInfo, err error) error {
+		if err != nil {
+			return err
+		}
+		rel, _ := filepath.Rel(src, p)
+		target := filepath.Join(dst, rel)
+		if info.IsDir() {
+			return os.MkdirAll(target, 0o755)
+		}
+		if info.Name() == "LOCK" {
+			return os.WriteFile(target, nil, 0o644)
+		}
+		b, err := os.ReadFile(p)
+		if err != nil {
+			return err
+		}
+		return os.WriteFile(target, b, 0o644)
+	})
 }
 
 func (c *Cluster) LeaderNode() *Node {
